@@ -181,6 +181,17 @@ theorem step_sync (cfg : Ev.Cfg) (p : Pair) (op : Host.Op) (ha : ∀ c d r, op =
     have hempty : (Ev.s2f33 cfg (Ev.s2f37 p.eq false []).1 []).1.conf.reports = [] := by
       simp [Ev.s2f33, Ev.pre33]
     refine ⟨i2, ?_, ?_⟩ <;> (intro e he; rw [hempty] at he; cases he)
+  | disableReports =>
+    simp only [Host.step]
+    have i1 : Inv cfg (Ev.s2f33 cfg p.eq []).1 := by rw [← step_fst_s2f33]; exact C12.step_inv cfg _ _ hinv
+    have hempty : (Ev.s2f33 cfg p.eq []).1.conf.reports = [] := by simp [Ev.s2f33, Ev.pre33]
+    refine ⟨i1, ?_, ?_⟩ <;> (intro e he; rw [hempty] at he; cases he)
+  | disableCeids =>
+    simp only [Host.step]
+    have i1 : Inv cfg (Ev.s2f37 p.eq false []).1 := by rw [← step_fst_s2f37 cfg]; exact C12.step_inv cfg _ _ hinv
+    refine ⟨i1, ?_, ?_⟩
+    · intro e he; rw [reports_s2f37] at he; exact hsub e he
+    · intro e he; rw [reports_s2f37] at he; exact hfresh e he
   | trigger cs => exact ⟨hinv, hsub, hfresh⟩
   | setSv v x => exact ⟨C12.step_inv cfg p.eq (.setSv v x) hinv, hsub, hfresh⟩
   | setDv v x => exact ⟨C12.step_inv cfg p.eq (.setDv v x) hinv, hsub, hfresh⟩
@@ -226,7 +237,7 @@ theorem wellformed_ids (cfg : Ev.Cfg) (s : Ev.St) : ∀ (rs : List Id) (rpts : L
   | _ :: rs, _ :: rpts, .cons hr ht => by simp [hr.1, wellformed_ids cfg s rs rpts ht]
 
 /-- **Every S6F11 of a trigger reaches the host application exactly once per linked report.**  For every history of
-automatically numbered subscriptions, clears, triggers and value updates on the pair, and every list of CEIDs given to one trigger
+automatically numbered subscriptions, clears, `disable_ceid_reports` / `disable_ceids` calls, triggers and value updates on the pair, and every list of CEIDs given to one trigger
 call: the equipment sends one S6F11 per linked-and-enabled CEID in list order (and its sender does not die); the host turns each into
 exactly one `collection_event_received` per linked report, in link order, whose values are the subscribed dv ids paired in order
 with the variables' current values, and answers S6F12 — never `KeyError`/`IndexError`/S6F0, because the subscription exists and
